@@ -200,6 +200,19 @@ def float_twin(U, P, W=None):
     return Curve([float(x) for x in U], pts, None if W is None else [float(w) for w in W])
 
 
+def mixed_twins(U, P, W=None):
+    """the same curve with numerically equal knots of another number type (python ints when integral, python floats when exactly
+    representable) but exact points and weights: operations on these with *exact* arguments fill any cache keyed on knot tuples"""
+    out = []
+    scalar = all(len(p) == 1 for p in P)
+    pts = lambda: ([p[0] for p in P] if scalar else [np.array(list(p), dtype=object) for p in P])   # noqa: E731
+    if all(frac(x).denominator == 1 for x in U):
+        out.append(Curve([int(x) for x in U], pts(), None if W is None else list(W)))
+    if all(F(float(x)) == frac(x) for x in U):
+        out.append(Curve([float(x) for x in U], pts(), None if W is None else list(W)))
+    return out
+
+
 def has_float(obj):
     """does a result of the real code contain a python/numpy float anywhere?"""
     if obj is None:
@@ -369,6 +382,16 @@ def rand_weights(rng, n, kind=None):
     if kind == "const":
         w = F(rng.randint(1, 9), rng.randint(1, 4))
         return [w] * n
+    if kind == "tiny":
+        # weights only matter up to a common factor: very small weights with ordinary ratios
+        sc = F(1, 10 ** rng.choice([10, 12, 15]))
+        return [sc * F(rng.randint(1, 12), rng.randint(1, 5)) for _ in range(n)]
+    if kind == "huge":
+        sc = F(10 ** rng.choice([10, 15]))
+        return [sc * F(rng.randint(1, 12), rng.randint(1, 5)) for _ in range(n)]
+    if kind == "nearequal":
+        # almost, but not exactly, equal weights (differences far below any absolute tolerance)
+        return [F(1) + F(rng.randint(0, 9), 10 ** 12) for _ in range(n)]
     return [F(rng.randint(1, 12), rng.randint(1, 5)) for _ in range(n)]
 
 
